@@ -59,19 +59,46 @@ def convTypes (v : PyVal) : R :=
 
 /-! ### nested data paths inside an argument are opaque objects (D18: never resolved) -/
 
-/-- an argument after data-path sniffing -/
-inductive Sniffed
+/-- an item of a list / mapping argument after data-path sniffing -/
+inductive SElem
   | path (p : Path)
   | val (v : PyVal)
 
-def Sniffed.toArg : Sniffed → Arg
+def SElem.toArg : SElem → Arg
   | .path p => .path p
   | .val v => .lit v
 
-/-- as an element of an enclosing list / mapping argument -/
-def Sniffed.toVal : Sniffed → PyVal
+/-- as an element of an enclosing list / mapping argument: a nested data path stays an (opaque) object -/
+def SElem.toVal : SElem → PyVal
   | .path _ => .obj 0
   | .val v => v
+
+/-- an argument after data-path sniffing: a path, a plain value, or a mapping / list / tuple whose
+    items have been sniffed one level deep -/
+inductive Sniffed
+  | path (p : Path)
+  | val (v : PyVal)
+  | dictS (items : List (PyVal × SElem))
+  | listS (items : List SElem)
+  | tupleS (items : List SElem)
+
+/-- the argument passed as a whole -/
+def Sniffed.toArg : Sniffed → Arg
+  | .path p => .path p
+  | .val v => .lit v
+  | .dictS items => .lit (.dict (items.map (fun kv => (kv.1, kv.2.toVal))))
+  | .listS items => .lit (.list (items.map SElem.toVal))
+  | .tupleS items => .lit (.tuple (items.map SElem.toVal))
+
+def Sniffed.toElem : Sniffed → SElem
+  | .path p => .path p
+  | .val v => .val v
+  | s => .val (match s.toArg with | .lit v => v | .path _ => .obj 0)
+
+def strKeysS (kvs : List (PyVal × SElem)) : Except Exc (List (String × Arg)) :=
+  kvs.mapM (fun kv => match kv.1 with
+    | .str s => .ok (s, kv.2.toArg)
+    | _ => .error .typeError)      -- keywords must be strings
 
 def strKeys (kvs : List (PyVal × PyVal)) : Except Exc (List (String × PyVal)) :=
   kvs.mapM (fun kv => match kv.1 with
@@ -216,17 +243,19 @@ def parseCond : Nat → PyVal → Except Exc (Cond Arg)
                     buildLeaf Arg.lit cls ctor [sn.toArg] []
                   else if k.posOrKw.length > 1 && !k.varPos && !k.varKw then
                     match sn with
+                    | .dictS items => do buildLeaf Arg.lit cls ctor [] (← strKeysS items)
                     | .val (.dict items) => do
                         buildLeaf Arg.lit cls ctor [] ((← strKeys items).map (fun kv => (kv.1, argOfVal kv.2)))
-                    | .val (.list xs) => buildLeaf Arg.lit cls ctor (xs.map argOfVal) []
-                    | .val (.tuple xs) => buildLeaf Arg.lit cls ctor (xs.map argOfVal) []
+                    | .listS xs => buildLeaf Arg.lit cls ctor (xs.map SElem.toArg) []
+                    | .tupleS xs => buildLeaf Arg.lit cls ctor (xs.map SElem.toArg) []
                     | _ => throw .malformedCond
                   else if k.varPos && k.posOrKw.isEmpty && !k.varKw then
                     match sn with
-                    | .val (.list xs) => buildLeaf Arg.lit cls ctor (xs.map argOfVal) []
+                    | .listS xs => buildLeaf Arg.lit cls ctor (xs.map SElem.toArg) []
                     | _ => throw .malformedCond
                   else if k.varKw && !k.varPos then
                     match sn with
+                    | .dictS items => do buildLeaf Arg.lit cls ctor [] (← strKeysS items)
                     | .val (.dict items) => do
                         buildLeaf Arg.lit cls ctor [] ((← strKeys items).map (fun kv => (kv.1, argOfVal kv.2)))
                     | _ => throw .malformedCond
@@ -246,25 +275,25 @@ def sniffArg : Nat → PyVal → Except Exc Sniffed
       | .error .malformedPath => do
           let kvs' ← kvs.mapM (fun kv => do
             match parsePathSpec fuel kv.2 with
-            | .ok r => pure (kv.1, r.toVal)
-            | .error .malformedPath => pure kv
+            | .ok r => pure (kv.1, r.toElem)
+            | .error .malformedPath => pure (kv.1, SElem.val kv.2)
             | .error e => throw e)
-          pure (.val (.dict kvs'))
+          pure (.dictS kvs')
       | .error e => .error e
   | fuel + 1, .list xs => do
       let xs' ← xs.mapM (fun x => do
         match parsePathSpec fuel x with
-        | .ok r => pure r.toVal
-        | .error .malformedPath => pure x
+        | .ok r => pure r.toElem
+        | .error .malformedPath => pure (SElem.val x)
         | .error e => throw e)
-      pure (.val (.list xs'))
+      pure (.listS xs')
   | fuel + 1, .tuple xs => do
       let xs' ← xs.mapM (fun x => do
         match parsePathSpec fuel x with
-        | .ok r => pure r.toVal
-        | .error .malformedPath => pure x
+        | .ok r => pure r.toElem
+        | .error .malformedPath => pure (SElem.val x)
         | .error e => throw e)
-      pure (.val (.tuple xs'))
+      pure (.tupleS xs')
   | _ + 1, v => .ok (.val v)
 
 /-- `DataPath.from_spec(spec)`: a path, or (for an escaped mapping) the un-escaped literal mapping -/
